@@ -22,14 +22,15 @@ MPART = 1.0e9
 SIM = 'SimH'
 
 
-def halo_struct(ids):
+def halo_struct(ids, base=0):
+    """ids are small labels (every attribute encodes its label); the id column stores base + label (real CompaSO ids exceed 2**53)"""
     n = len(ids)
     dt = np.dtype([('id', 'i8'), ('x_L2com', 'f8', 3), ('v_L2com', 'f8', 3), ('randoms_exp', 'f8', 3), ('randoms_gaus_vrms', 'f8', 3),
                    ('sigmav3d_L2com', 'f8'), ('r98_L2com', 'f8'), ('r25_L2com', 'f8'), ('N', 'f8'), ('deltac_rank', 'f8'), ('fenv_rank', 'f8'),
                    ('shear_rank', 'f8'), ('multi_halos', 'f8'), ('randoms', 'f8')])
     a = np.zeros(n, dtype=dt)
     i = np.asarray(ids, dtype=np.float64)
-    a['id'] = ids
+    a['id'] = np.asarray(ids, dtype=np.int64) + np.int64(base)
     a['x_L2com'] = np.stack([i, i + 0.25, i + 0.5], axis=1)
     a['v_L2com'] = np.stack([2 * i, 2 * i + 1, -i], axis=1)
     a['randoms_exp'] = np.stack([i + 100, i + 101, i + 102], axis=1)
@@ -46,14 +47,14 @@ def halo_struct(ids):
     return a
 
 
-def part_struct(hids, rng):
+def part_struct(hids, rng, base=0):
     n = len(hids)
     dt = np.dtype([('pos', 'f8', 3), ('vel', 'f8', 3), ('halo_vel', 'f8', 3), ('halo_mass', 'f8'), ('halo_id', 'i8'), ('Np', 'f8'), ('downsample_halo', 'f8'),
                    ('randoms', 'f8'), ('halo_deltac', 'f8'), ('halo_fenv', 'f8'), ('halo_shear', 'f8'), ('ranks', 'f8'), ('ranksv', 'f8'), ('ranksp', 'f8'),
                    ('ranksr', 'f8'), ('ranksc', 'f8')])
     a = np.zeros(n, dtype=dt)
     i = np.asarray(hids, dtype=np.float64)
-    a['halo_id'] = hids
+    a['halo_id'] = np.asarray(hids, dtype=np.int64) + np.int64(base)
     a['pos'] = rng.random((n, 3))
     a['vel'] = rng.random((n, 3))
     a['halo_vel'] = np.stack([2 * i, 2 * i + 1, -i], axis=1)
@@ -69,7 +70,7 @@ def part_struct(hids, rng):
     return a
 
 
-def write_case(root, slabs, rng, ranks):
+def write_case(root, slabs, rng, ranks, base=0):
     import asdf
     import h5py
     shutil.rmtree(root, ignore_errors=True)
@@ -82,12 +83,12 @@ def write_case(root, slabs, rng, ranks):
         asdf.AsdfFile({'header': {'H0': 67.0, 'BoxSize': 2000.0, 'ParticleMassHMsun': MPART, 'VelZSpace_to_kms': 75.0}, 'data': {'x': np.zeros(1)}}).write_to(
             os.path.join(hi, f'halo_info_{s:03d}.asdf'))
         with h5py.File(os.path.join(sub, f'halos_xcom_{s}_seed600_abacushod_oldfenv_MT_new.h5'), 'w') as f:
-            f.create_dataset('halos', data=halo_struct(ids))
+            f.create_dataset('halos', data=halo_struct(ids, base))
         # two particles per halo, hosted in this slab, in halo order
         hids = [i for i in ids for _ in range(2)]
         parts_all.append(hids)
         with h5py.File(os.path.join(sub, f'particles_xcom_{s}_seed600_abacushod_oldfenv_MT{"_withranks" if ranks else ""}_new.h5'), 'w') as f:
-            f.create_dataset('particles', data=part_struct(hids, rng))
+            f.create_dataset('particles', data=part_struct(hids, rng, base))
     return parts_all
 
 
@@ -133,12 +134,13 @@ def run(chk):
         # an empty slab file is legal for the loader only if it exists: keep empty slabs as empty datasets
         flags = [(False, False, False, False), (True, True, True, False), (True, False, False, True), (False, True, True, True)][ci % 4]
         want_AB, want_shear, want_ranks, want_expvel = flags
-        parts_all = write_case(root, slabs, rng, want_ranks)
+        base = ((1 << 60) + 1) if ci % 3 == 1 else 0            # ids beyond 2**53 are not representable in float64
+        parts_all = write_case(root, slabs, rng, want_ranks, base)
         sim_params = dict(sim_name=SIM, sim_dir=os.path.join(root, 'sim'), subsample_dir=os.path.join(root, 'subsample'), output_dir=os.path.join(root, 'out'), z_mock=0.5, force_mt=True)
         HOD_params = dict(tracer_flags=dict(LRG=True, ELG=False, QSO=False), LRG_params={}, want_ranks=want_ranks, want_AB=want_AB, want_shear=want_shear,
                           want_expvel=want_expvel, want_rsd=True)
-        desc = f'slab files with halo ids {slabs} flags AB={want_AB} shear={want_shear} ranks={want_ranks} expvel={want_expvel}'
-        payload = dict(slabs=slabs, flags=list(flags))
+        desc = f'slab files with halo ids {"2**60+1+" if base else ""}{slabs} flags AB={want_AB} shear={want_shear} ranks={want_ranks} expvel={want_expvel}'
+        payload = dict(slabs=slabs, flags=list(flags), base=int(base))
         try:
             with warnings.catch_warnings():
                 warnings.simplefilter('ignore')
@@ -152,7 +154,7 @@ def run(chk):
         nontriv += 1 if ids_file != srt else 0
         hd, pd = ball.halo_data, ball.particle_data
         order = 'sorted' if ids_file == srt else ('reversed' if ids_file == srt[::-1] else 'interleaved')
-        hid = np.asarray(hd['hid']).astype(np.int64).tolist()
+        hid = (np.asarray(hd['hid']).astype(np.int64) - np.int64(base)).tolist()
         if hid != srt:
             chk.violation(f'ids-not-increasing-{order}', f'{desc}: staged hid {hid} is not the increasing id sequence {srt}', payload)
             continue
@@ -163,6 +165,8 @@ def run(chk):
                 continue
             if name == 'hveldev':
                 got = np.asarray(hd[name])[:, 0] - (100 if want_expvel else 200)
+            elif name == 'hid':
+                got = (np.asarray(hd[name]).astype(np.int64) - np.int64(base)).astype(np.float64)
             else:
                 got = decode(name, hd[name])
             if not np.allclose(got, np.asarray(srt, dtype=np.float64), rtol=1e-9, atol=1e-9):
@@ -171,15 +175,15 @@ def run(chk):
         phid = np.asarray(pd['phid']).astype(np.int64)
         pinds = np.asarray(pd['pinds']).astype(np.int64)
         want_phid = [i for hs in parts_all for i in hs]
-        if phid.tolist() != want_phid:
-            chk.violation('particle-order', f'{desc}: particle host ids {phid.tolist()} != file order {want_phid}', payload)
+        if (phid - np.int64(base)).tolist() != want_phid:
+            chk.violation('particle-order', f'{desc}: particle host ids {(phid - np.int64(base)).tolist()} != file order {want_phid}', payload)
         elif np.any(pinds < 0) or np.any(pinds >= len(srt)) or not np.array_equal(np.asarray(hd['hid'])[pinds], phid):
-            chk.violation(f'particle-host-index-{order}', f'{desc}: hid[pinds] = {np.asarray(hd["hid"])[np.clip(pinds, 0, len(srt) - 1)].tolist()} != phid {phid.tolist()}', payload)
+            chk.violation(f'particle-host-index-{order}', f'{desc}: hid[pinds] = {(np.asarray(hd["hid"])[np.clip(pinds, 0, len(srt) - 1)] - np.int64(base)).tolist()} != phid {(phid - np.int64(base)).tolist()}', payload)
         else:
             # per-particle host attributes agree with the host row
             if not np.allclose(np.asarray(pd['phmass']), np.asarray(hd['hmass'])[pinds]) or not np.allclose(np.asarray(pd['phvel']), np.asarray(hd['hvel'])[pinds]):
                 chk.violation(f'particle-host-attributes-{order}', f'{desc}: particle host mass/velocity differ from the row its host index points to', payload)
-        if want_ranks and not np.allclose(np.asarray(pd['pranks']), phid.astype(np.float64)):
+        if want_ranks and not np.allclose(np.asarray(pd['pranks']), (phid - np.int64(base)).astype(np.float64)):
             chk.violation('particle-ranks', f'{desc}: pranks rows do not belong to the recorded host ids', payload)
         if ci % 30 == 0:
             chk.sample(dict(slabs=slabs, flags=dict(AB=want_AB, shear=want_shear, ranks=want_ranks, expvel=want_expvel), staged_hid=hid))
@@ -194,8 +198,8 @@ def run(chk):
                     njump = int(np.ceil(len(slabs) / 2))
                     sel = [i for s in slabs[chunk * njump:(chunk + 1) * njump] for i in s]
                     h2 = b2.halo_data
-                    if np.asarray(h2['hid']).astype(np.int64).tolist() != sorted(sel):
-                        chk.violation('chunk-ids', f'{desc} chunk {chunk}/2: staged hid {np.asarray(h2["hid"]).tolist()} != sorted ids of its slabs {sorted(sel)}', payload)
+                    if (np.asarray(h2['hid']).astype(np.int64) - np.int64(base)).tolist() != sorted(sel):
+                        chk.violation('chunk-ids', f'{desc} chunk {chunk}/2: staged hid {(np.asarray(h2["hid"]).astype(np.int64) - np.int64(base)).tolist()} != sorted ids of its slabs {sorted(sel)}', payload)
                     else:
                         for name in ('hc', 'hrvir', 'hsigma3d', 'hmass'):
                             if not np.allclose(decode(name, h2[name]), np.asarray(sorted(sel), dtype=np.float64)):
